@@ -15,6 +15,8 @@ CHECK = {
     "bounds": {"quick": "TODO", "thorough": "TODO"},
     "units": {
         "hist": {"pkg": "middleware/resolver", "run": "TestVerifC09Hist", "harness": _H, "rewrite": _RW,
-                 "budget_s": {"quick": 70, "thorough": 660}},
+                 "budget_s": {"quick": 50, "thorough": 420}},
+        "crash": {"pkg": "middleware/resolver", "run": "TestVerifC09Crash", "harness": _H, "rewrite": _RW,
+                  "budget_s": {"quick": 30, "thorough": 280}},
     },
 }
